@@ -22,6 +22,13 @@ Definition wire_payload (p : payload) : payload :=
   | _ => p
   end.
 
+(* more FOpts octets than the 4-bit FOptsLen can announce: such a frame has no encoding (finding C06-5) *)
+Definition fopts_too_long (p : phy) : bool :=
+  match pl p with
+  | PLMac m => match items_marshal (fopts (hdr m)) with Ok ob => (15 <? length ob)%nat | _ => false end
+  | _ => false
+  end.
+
 Definition check (c : case) : N :=
   match c with
   | CRoundTrip p o_enc o_dec =>
@@ -29,11 +36,13 @@ Definition check (c : case) : N :=
           match o_enc with Ok bs => phyeqb (phy_unmarshal bs) o_dec | _ => true end)
          (if spec_valid p
           then is_ok o_enc && phyeqb o_dec (Ok (wire_view p))
+          else if fopts_too_long p then is_err o_enc
           else negb (is_panic o_enc) || match pl p with PLJoinAccept _ _ _ _ _ _ _ (Some l) => match cf_payload l with CFPNil => true | _ => false end | _ => false end)
   | CText p o_txt o_dec =>
     code (oeqb (phy_marshal_text p) o_txt &&
           match o_txt with Ok t => phyeqb (phy_unmarshal_text t) o_dec | _ => true end)
          (if spec_valid p then is_ok o_txt && phyeqb o_dec (Ok (wire_view p))
+          else if fopts_too_long p then is_err o_txt
           else negb (is_panic o_txt) || match pl p with PLJoinAccept _ _ _ _ _ _ _ (Some l) => match cf_payload l with CFPNil => true | _ => false end | _ => false end)
   | CJoinAccept p o_enc o_dec =>
     code (oeqb (payload_marshal p) o_enc &&
